@@ -116,6 +116,43 @@ def campaign(c):
                 c.count('records', len(T))
         c.count('outcome:' + impl['outcome'][0])
         c.case(key, dict(src=rep['src'][:400]) if key else None)
+    # the gap a statement adds is a function of the packets IT emits: statements of similar shape (same packet count, same first
+    # frame, different later frames; the same frames again) back to back and in the opposite order, no jumps.  Every statement's gap
+    # is entered into one table keyed by the lengths of its packets; two different gaps for one key is a dependence on history.
+    table = {}
+    for i in range(30 if c.quick else 600):
+        r = c.rng.fork('gap%d' % i)
+        pool = []
+        for _ in range(3 + r.below(5)):
+            k = r.below(6)
+            if k <= 1:
+                pool.append('dns::host(%s, "%s"%s);' % (r.choice(['1.2.3.4', '9.8.7.6']), r.choice(['aaa.example', 'bbb.example', 'c.example.org']),
+                                                      ''.join(', 10.0.0.%d' % (1 + r.below(200)) for _ in range(r.below(4)))))
+            elif k == 2: pool.append('ipv4::udp::unicast(1.2.3.4:5, 6.7.8.9:10, "|%s|");' % ('00' * r.choice([0, 1, 16, 33, 47])))
+            elif k == 3: pool.append('eth::frame("|000000000001|", "|000000000002|", "|%s|");' % ('00' * r.choice([0, 1, 16, 61])))
+            elif k == 4: pool.append('vx.encap(dns::host(1.2.3.4, "%s"%s));' % (r.choice(['aaa.example', 'bbb.example']), ''.join(', 10.0.0.%d' % (1 + r.below(200)) for _ in range(r.below(4)))))
+            else: pool.append('tf.%s_message("|%s|");' % (r.choice(['client', 'server']), '00' * r.choice([1, 15, 29])))
+        head = 'import ipv4;\nimport dns;\nimport eth;\nimport vxlan;\nlet vx = vxlan::session(1.1.1.1:1, 2.2.2.2:4789);\nlet tf = ipv4::tcp::flow(1.2.3.4:5, 6.7.8.9:80);\n'
+        for order in (pool, pool[::-1]):
+            src = (head + '\n'.join(order) + '\n').encode()
+            impl, model = progdiff.run_both(c, src)
+            progdiff.compare(c, src, impl, model, 'time-gap', project=lambda f: len(f).to_bytes(4, 'big'))
+            if impl['outcome'][0] != 'success': continue
+            recs = progdiff.pcap_records(impl['file'])
+            groups, last = [], None
+            for t, fr in recs:
+                if t != last: groups.append((t, [])); last = t
+                groups[-1][1].append(len(fr))
+            if len(groups) != len(order): continue
+            prev = 0
+            for (t, lens), st in zip(groups, order):
+                key = tuple(lens); gap = t - prev; prev = t
+                if key in table and table[key][0] != gap:
+                    c.violation('time:gap-depends-on-history', 'a statement emitting packets of lengths %s adds %d ns here and %d ns elsewhere' % (list(key), gap, table[key][0]),
+                                dict(src=src.decode(), statement=st, other=table[key][1]))
+                table.setdefault(key, (gap, src.decode()))
+            c.count('gap-statements', len(order)); c.traces_validated += 1
+        c.case(('gap', i), dict(kind='gap-table', src=src.decode()[-300:]) if i % 6 == 0 else None)
     # boundary: seconds field near the pcap limit, nsec crossing
     for v, unit in [(4294967295, 'seconds'), (999999999, 'nanos'), (1000000000, 'nanos'), (4294967295999, 'millis'), (1, 'nanos')]:
         src = ('import time;\nimport eth;\ntime::jump_%s(%d);\neth::frame("|000000000001|", "|000000000002|");\ntime::jump_nanos(999999999);\neth::frame("|000000000001|", "|000000000002|");\n' % (unit, v)).encode()
